@@ -75,16 +75,3 @@ Proof.
     exists p. split; [reflexivity|]. apply N.ltb_lt. exact H.
 Qed.
 
-(* min / max: the specification places them with the functions, the table
-   gives them the number of the comparison class. *)
-Lemma min_max_refuted :
-  exists a b, In a spec_classes_violated /\ In b spec_classes /\
-    exists pa pb, prec_of (fst a) = Some pa /\ prec_of (fst b) = Some pb /\
-                  N.compare pa pb <> N.compare (snd a) (snd b).
-Proof.
-  exists ("minOpType"%string, c_function), ("addOpType"%string, c_arithmetic).
-  split; [left; reflexivity|]. split.
-  - vm_compute. tauto.
-  - eexists; eexists. split; [vm_compute; reflexivity|]. split; [vm_compute; reflexivity|].
-    vm_compute. discriminate.
-Qed.
